@@ -9,6 +9,7 @@ from ..report import Rule, RuleCtx
 from .. import tables
 from ..tables import Atom
 from . import cmpcore
+from .c19_norm import normalise
 
 UNIVERSAL = 'mesonbuild/utils/universal.py'
 
@@ -56,15 +57,73 @@ def _sample_heads() -> T.List[str]:
     return [''] + alpha + [a + b for a in alpha for b in alpha]
 
 
+def _cmpop_result(ret: T.Tuple[T.Any, ...], where: str) -> T.Optional[T.Tuple[str, int]]:
+    """Shape of one result of _version_extract_cmpop: `(operator.X, ARG1[n:]...[m:].strip())` -> (X, n+m).
+    None: the row does not return a pair at all.  Shapes that cannot be read are Undecided."""
+    if ret[0] != 'return':
+        return None
+    e = ast.parse(ret[1], mode='eval').body
+    if not (isinstance(e, ast.Tuple) and len(e.elts) == 2):
+        if isinstance(e, (ast.Name, ast.Call, ast.Subscript, ast.Attribute, ast.IfExp)):
+            raise Undecided(f'_version_extract_cmpop: {where}: cannot read the result {ret[1]}')
+        return None
+    op = attr_chain(e.elts[0]) or ''
+    if not op.startswith('operator.'):
+        raise Undecided(f'_version_extract_cmpop: {where}: cannot read the operator in {ret[1]}')
+    rest = e.elts[1]
+    n = 0
+    while True:
+        if isinstance(rest, ast.Call) and isinstance(rest.func, ast.Attribute) and rest.func.attr == 'strip' and not rest.args and not rest.keywords:
+            rest = rest.func.value      # whitespace around the version is not significant (the tokenizer skips it)
+        elif isinstance(rest, ast.Subscript):
+            sl = rest.slice
+            if not (isinstance(sl, ast.Slice) and sl.upper is None and sl.step is None
+                    and (sl.lower is None or (isinstance(sl.lower, ast.Constant) and isinstance(sl.lower.value, int) and sl.lower.value >= 0))):
+                raise Undecided(f'_version_extract_cmpop: {where}: unknown rewrite {norm(e.elts[1])}')
+            n += sl.lower.value if sl.lower is not None else 0      # type: ignore[attr-defined]
+            rest = rest.value
+        else:
+            break
+    if norm(rest) != 'ARG1':
+        raise Undecided(f'_version_extract_cmpop: {where}: unknown rewrite {norm(e.elts[1])}')
+    return op.split('.', 1)[1], n
+
+
+def _emptiness(e: ast.AST) -> T.Optional[T.Tuple[str, str]]:
+    """`not X` / `len(X) == 0` / `X == []` -> ('empty', X);  `bool(X)` / `len(X) > 0` / `X != []` -> ('nonempty', X)."""
+    if isinstance(e, ast.UnaryOp) and isinstance(e.op, ast.Not):
+        inner = _emptiness(e.operand)
+        if inner is not None:
+            return ('nonempty' if inner[0] == 'empty' else 'empty', inner[1])
+        if isinstance(e.operand, ast.Name):
+            return ('empty', e.operand.id)
+        if isinstance(e.operand, ast.Call) and norm(e.operand.func) == 'len' and len(e.operand.args) == 1 and isinstance(e.operand.args[0], ast.Name):
+            return ('empty', e.operand.args[0].id)
+        return None
+    if isinstance(e, ast.Call) and norm(e.func) == 'bool' and len(e.args) == 1 and isinstance(e.args[0], ast.Name):
+        return ('nonempty', e.args[0].id)
+    if isinstance(e, ast.Compare) and len(e.ops) == 1:
+        l, r, op = e.left, e.comparators[0], e.ops[0]
+        if isinstance(l, ast.Call) and norm(l.func) == 'len' and len(l.args) == 1 and isinstance(l.args[0], ast.Name) \
+                and isinstance(r, ast.Constant) and r.value == 0:
+            if isinstance(op, ast.Eq):
+                return ('empty', l.args[0].id)
+            if isinstance(op, (ast.Gt, ast.NotEq)):
+                return ('nonempty', l.args[0].id)
+        if isinstance(l, ast.Name) and isinstance(r, ast.List) and not r.elts:
+            if isinstance(op, ast.Eq):
+                return ('empty', l.id)
+            if isinstance(op, ast.NotEq):
+                return ('nonempty', l.id)
+    return None
+
+
 def r3(ctx: RuleCtx) -> None:
     mod = ctx.repo.module(UNIVERSAL)
     fn = mod.func('_version_extract_cmpop')
-
-    def effects(st: ast.AST) -> T.Optional[str]:
-        if isinstance(st, ast.Assign) and len(st.targets) == 1:
-            return f'{norm(st.targets[0])} := {norm(st.value)}'
-        return None
-    tab = tables.extract(fn, effects=effects, inline=False, name='_version_extract_cmpop')
+    # locals resolved by their reaching definition: the if/elif chain with `cmpop = ..; vstr2 = vstr2[n:]` and a
+    # single trailing return gives the same rows as early returns of `(operator.X, vstr2[n:].strip())`
+    tab = tables.extract(normalise(fn), inline=False, name='_version_extract_cmpop')
     pre_atoms: T.Dict[Atom, str] = {}
     for a in tab.atoms():
         if a.kind == 'truth':
@@ -86,41 +145,68 @@ def r3(ctx: RuleCtx) -> None:
         if len(rows) != 1:
             raise Undecided(f'_version_extract_cmpop: {len(rows)} rows fire for a string starting with {head!r}')
         r = rows[0]
-        ops = [e.split(':=')[1].strip() for e in r.effects if e.startswith('cmpop :=') or ':= operator.' in e]
-        slices = [e for e in r.effects if e.startswith('ARG1 :=')]
-        got_len = 0
-        for s in slices:
-            v = ast.parse(s.split(':=', 1)[1].strip(), mode='eval').body
-            if isinstance(v, ast.Subscript) and isinstance(v.slice, ast.Slice) and v.slice.upper is None and isinstance(v.slice.lower, ast.Constant):
-                got_len += v.slice.lower.value
-            else:
-                raise Undecided(f'_version_extract_cmpop: unknown rewrite {s}')
-        ctx.require(ops == [f'operator.{want_op}'] and got_len == len(best),
-                    f'text starting {head!r}: operator {want_op}, {len(best)} characters removed', mod, '_version_extract_cmpop',
-                    r.path.events[-1].node if r.path.events else fn,
-                    f'for a constraint starting with {head!r} the code selects {ops} and strips {got_len} characters; documented: operator.{want_op}, {len(best)}',
-                    )
-        ret = r.outcome
-        if ret[0] == 'return':
-            e = ast.parse(ret[1], mode='eval').body
-            ok = isinstance(e, ast.Tuple) and len(e.elts) == 2 and norm(e.elts[0]) == 'cmpop' and norm(e.elts[1]) in ('ARG1.strip()', 'ARG1')
-            ctx.require(ok, f'{head!r}: returns (operator, rest)', mod, '_version_extract_cmpop', fn, f'unexpected result {ret[1]}')
+        node = r.path.events[-1].node if r.path.events else fn
+        got = _cmpop_result(r.outcome, f'text starting {head!r}')
+        if got is None:
+            ctx.violation(mod, '_version_extract_cmpop', node, f'for a constraint starting with {head!r} the result is not an (operator, rest) pair: {r.outcome}')
+            continue
+        ctx.require(got == (want_op, len(best)),
+                    f'text starting {head!r}: operator {want_op}, {len(best)} characters removed', mod, '_version_extract_cmpop', node,
+                    f'for a constraint starting with {head!r} the code selects operator.{got[0]} and strips {got[1]} characters; '
+                    f'documented: operator.{want_op}, {len(best)}')
     # version_compare applies the operator to (Version(v1), Version(rest)) in that order
     vc = mod.func('version_compare')
     calls = [c for c in ast.walk(vc) if isinstance(c, ast.Call) and norm(c.func) == 'cmpop']
     ok = len(calls) == 1 and [norm(a) for a in calls[0].args] == ['Version(vstr1)', 'Version(vstr2)']
     ctx.require(ok, 'version_compare applies cmpop(Version(lhs), Version(rest))', mod, 'version_compare', vc, 'operand order / wrapping changed in version_compare')
-    # version_compare_many: holds iff each holds
+    _r3_compare_many(ctx, mod)
+
+
+def _r3_compare_many(ctx: RuleCtx, mod: T.Any) -> None:
+    """version_compare_many: a requirement goes to the failed list iff version_compare is false; the verdict is
+    'the failed list is empty'.  The two lists are identified by their role, not by their name."""
     vm = mod.func('version_compare_many')
-    tab2 = tables.extract(vm, body=[s for s in vm.body if isinstance(s, ast.For)][0].body, name='version_compare_many:loop',
+    vmn = normalise(vm)
+    loops = [s for s in ast.walk(vmn) if isinstance(s, ast.For)]
+    if not loops or len({norm(l) for l in loops}) != 1:
+        raise Undecided('version_compare_many: expected one loop over the requirements')
+    tab2 = tables.extract(vmn, body=loops[0].body, name='version_compare_many:loop', inline=False,
                           effects=lambda st: norm(st) if isinstance(st, ast.Expr) else None)
+    role: T.Dict[bool, T.Set[str]] = {True: set(), False: set()}
     for r in tab2.rows:
-        neg = [v for a, v in r.conds.items() if 'version_compare' in repr(a)]
-        want = 'found.append(req)' if (neg and neg[0]) else 'not_found.append(req)'
-        ctx.require(list(r.effects) == [want], f'version_compare_many row {r!r}', mod, 'version_compare_many', vm, f'row {r!r} should do {want}')
-    rets = [s for s in vm.body if isinstance(s, ast.Return)]
-    ctx.require(len(rets) == 1 and norm(rets[0].value.elts[0]) == 'not not_found', 'version_compare_many: verdict is `not not_found`', mod,  # type: ignore[union-attr]
-                'version_compare_many', vm, 'the overall verdict is not "no failed constraint"')
+        held = [v for a, v in r.conds.items() if 'version_compare(' in repr(a)]
+        if len(held) != 1:
+            raise Undecided(f'version_compare_many: row without exactly one version_compare test: {r!r}')
+        effs = list(r.effects)
+        m = None
+        if len(effs) == 1:
+            e = ast.parse(effs[0], mode='eval').body
+            if isinstance(e, ast.Call) and isinstance(e.func, ast.Attribute) and e.func.attr == 'append' and isinstance(e.func.value, ast.Name) \
+                    and len(e.args) == 1 and norm(e.args[0]) == norm(loops[0].target):
+                m = e.func.value.id
+        if m is None:
+            ctx.violation(mod, 'version_compare_many', repr(r), f'row {r!r} should append the requirement to exactly one result list', r.path.events[-1].node if r.path.events else vm)
+            continue
+        role[held[0]].add(m)
+    ok = len(role[True]) == 1 and len(role[False]) == 1 and role[True] != role[False]
+    ctx.require(ok, f'version_compare_many: satisfied -> {sorted(role[True])}, failed -> {sorted(role[False])}', mod, 'version_compare_many', vm,
+                f'satisfied requirements are appended to {sorted(role[True])}, failed ones to {sorted(role[False])}: the two lists are not kept apart')
+    if not ok:
+        return
+    good, failed = next(iter(role[True])), next(iter(role[False]))
+    rets = [s for s in walk_no_nested(vmn) if isinstance(s, ast.Return)]
+    ctx.floor('version_compare_many returns', len(rets), 1)
+    for ret in {norm(s): s for s in rets}.values():
+        v = ret.value
+        if not (isinstance(v, ast.Tuple) and len(v.elts) == 3):
+            raise Undecided(f'version_compare_many: cannot read the result {short(ret)}')
+        em = _emptiness(v.elts[0])
+        if em is None:
+            raise Undecided(f'version_compare_many: cannot read the verdict {short(v.elts[0])}')
+        ctx.require(em == ('empty', failed), f'version_compare_many: verdict is "`{failed}` is empty"', mod, 'version_compare_many', ret,
+                    f'the overall verdict `{norm(v.elts[0])}` is not "no failed constraint" (`not {failed}`)')
+        ctx.require([norm(x) for x in v.elts[1:]] == [failed, good], 'version_compare_many: returns (verdict, failed, satisfied)', mod,
+                    'version_compare_many', ret, f'the lists are returned as {[norm(x) for x in v.elts[1:]]}; expected [{failed}, {good}]')
 
 
 def _truth(name: str) -> Atom:
@@ -148,7 +234,7 @@ def _effs(row: tables.Row) -> T.List[str]:
 def r4_contains(ctx: RuleCtx) -> None:
     mod = ctx.repo.module(UNIVERSAL)
     fn = mod.func('Range.__contains__')
-    tab = tables.extract(fn, bool_returns=True, name='Range.__contains__')
+    tab = tables.extract(normalise(fn), inline=False, bool_returns=True, name='Range.__contains__')
     sem = {
         _truth('self.is_empty'): 'empty',
         Atom('is', ('self.min', 'None')): 'min_none', Atom('is', ('self.max', 'None')): 'max_none',
@@ -209,7 +295,7 @@ def _compare(ctx: RuleCtx, mod: T.Any, qn: str, fn: ast.AST, tab: tables.Table, 
 def r4_post_init(ctx: RuleCtx) -> None:
     mod = ctx.repo.module(UNIVERSAL)
     fn = mod.func('Range.__post_init__')
-    tab = tables.extract(fn, effects=_assign_effects, name='Range.__post_init__')
+    tab = tables.extract(normalise(fn), inline=False, effects=_assign_effects, name='Range.__post_init__')
     sem = {
         Atom('is', ('self.min', 'None')): 'min_none', Atom('is', ('self.max', 'None')): 'max_none',
         _truth('self.min_eq'): 'min_eq', _truth('self.max_eq'): 'max_eq',
@@ -250,7 +336,7 @@ def _r4_intersect_side(ctx: RuleCtx, side: str) -> None:
     mod = ctx.repo.module(UNIVERSAL)
     qn = f'Range._intersect_{side}'
     fn = mod.func(qn)
-    tab = tables.extract(fn, effects=_assign_effects, name=qn)
+    tab = tables.extract(normalise(fn), inline=False, effects=_assign_effects, name=qn)
     f, fe = f'self.{side}', f'self.{side}_eq'
     tighter = Atom('cmp', ('lt', f, 'ARG1')) if side == 'min' else Atom('cmp', ('lt', 'ARG1', f))
     looser = Atom('cmp', ('lt', 'ARG1', f)) if side == 'min' else Atom('cmp', ('lt', f, 'ARG1'))
@@ -283,7 +369,7 @@ def r4_intersect(ctx: RuleCtx) -> None:
     _r4_intersect_side(ctx, 'max')
     mod = ctx.repo.module(UNIVERSAL)
     fn = mod.func('Range.intersect')
-    tab = tables.extract(fn, effects=_assign_effects, name='Range.intersect')
+    tab = tables.extract(normalise(fn), inline=False, effects=_assign_effects, name='Range.intersect')
     sem = {_truth('ARG1.is_empty'): 'x_empty', _truth('self.is_empty'): 'self_empty',
            Atom('is', ('ARG1.min', 'None')): 'xmin_none', Atom('is', ('ARG1.max', 'None')): 'xmax_none'}
 
@@ -329,7 +415,8 @@ def r4_intersect(ctx: RuleCtx) -> None:
     _compare(ctx, mod, 'Range.intersect', fn, tab, sem, view, ref, got, list(sem))
 
     fn = mod.func('Range.always')
-    tab = tables.extract(fn, effects=_assign_effects, inline=True, inline_calls={'intersect'}, name='Range.always')
+    # a returned local (`verdict = False ... return verdict`) is resolved by its reaching definition on the path
+    tab = tables.extract(normalise(fn, calls={'intersect'}), inline=False, name='Range.always')
     nar = 'self.intersect(ARG1)'
     sem2 = {_truth(f'{nar}.is_empty'): 'empty', Atom('cmp', ('eq', nar, 'self')): 'same', Atom('cmp', ('eq', 'self', nar)): 'same'}
 
